@@ -311,7 +311,7 @@ def gen_ori(rnd, pid):
     else:
         base = [pbox(-1, -1, W + 1, H + rnd.choice([0, 1]))]
     sz = rnd.choice(FLAT_WIDE if rnd.random() < 0.65 else TALL_THIN)
-    kind = rnd.choice(["roll", "pitch", "both", "yaw", "fixed", "all"])
+    kind = rnd.choice(["roll", "roll", "pitch", "pitch", "both", "yaw", "fixed", "all"])
     c0 = ("const", 0)
     yaw = rnd.choice(ANGLE_SPECS) if kind in ("yaw", "all") or rnd.random() < 0.3 else c0
     if kind == "yaw":
@@ -319,8 +319,8 @@ def gen_ori(rnd, pid):
     elif kind == "fixed":
         pitch, roll = rnd.choice([(c0, ("const", 1)), (("const", 1), c0), (("const", -1), ("const", 1)), (("const", 2), c0)])
     else:
-        pitch = rnd.choice(RANDOM_SPECS) if kind in ("pitch", "both", "all") else rnd.choice([c0, c0, ("const", 1)])
-        roll = rnd.choice(RANDOM_SPECS) if kind in ("roll", "both", "all") else rnd.choice([c0, c0, ("const", 1)])
+        pitch = rnd.choice(RANDOM_SPECS) if kind in ("pitch", "both", "all") else rnd.choice([c0, c0, c0, ("const", 1)])
+        roll = rnd.choice(RANDOM_SPECS) if kind in ("roll", "both", "all") else rnd.choice([c0, c0, c0, ("const", 1)])
     wd = None
     sizes = [list(sz)]
     if rnd.random() < 0.25:  # a random width on top
